@@ -82,6 +82,54 @@ def regex(ctx):
     ctx.unsat(label, formula, decode=lambda mdl: {"s": SE.z3_str(mdl, s)}, sig=f"language:{tag}", vars=[s])
 
 
+@case("C18", "shared_charset", domain="Raw")
+def shared_charset(ctx):
+    """Several conversions with the SAME caller-supplied character-set object (as LarkStuff.char_cfg(charset=S)
+    does for all terminals of a grammar): the set must not change and every later automaton must still be right."""
+    from genlm.grammar.lark_interface import interegular_to_wfsa
+
+    P = ctx.P
+    pats = P["patterns"]
+    L = P["L"]
+    base = _charset(P["charset"])
+    shared = set(base)
+    import warnings
+
+    machines = []
+    with warnings.catch_warnings():
+        warnings.simplefilter("ignore")
+        for pat in pats:
+            ok, m = ctx.call(f"interegular_to_wfsa({pat!r}, shared set)", interegular_to_wfsa, pat, charset=shared, sig="interegular_to_wfsa:exception")
+            if not ok:
+                return
+            machines.append(m)
+    ctx.check("the caller's character set is unchanged after the conversions", shared == base,
+              detail=f"lost {sorted(base - shared)} gained {sorted(shared - base)}", sig=f"charset-mutated:{P['charset']}")
+    pat, m = pats[-1], machines[-1]
+    tag = f"{'>'.join(pats)}|{P['charset']}"
+    label = f"language of the automaton for {pat!r} built after {pats[:-1]} with one shared charset object = regex language (all strings up to {L})"
+    if not ctx.symbolic and "s" in ctx.D.values:
+        s = ctx.D.values["s"]
+        w = m(s)
+        want = re.fullmatch(pat, s) is not None
+        ctx.check(label, (w != 0) == want, detail=f"string {s!r}: automaton weight {w}, re.fullmatch {want}", sig=f"shared-charset:{tag}:{s!r}")
+        return
+    if not ctx.symbolic:
+        return
+    ref = SE.regex_to_z3(pat, base)
+    s = z3.String("s")
+    arcs = [(i, a, j, w) for i, a, j, w in m.arcs() if w != 0]
+    chars_of = {}
+    for i, a, j, w in arcs:
+        if isinstance(a, str) and len(a) == 1:
+            chars_of.setdefault((i, j), set()).add(a)
+    inits = [q for q, w in m.start.items() if w != 0]
+    finals = [q for q, w in m.stop.items() if w != 0]
+    acc = SE.unroll_nfa(s, L, None, set(inits), set(finals), chars_of)
+    formula = z3.And(z3.Length(s) <= L, z3.InRe(s, z3.Star(SE.charset_re(base))), acc != z3.InRe(s, ref))
+    ctx.unsat(label, formula, decode=lambda mdl: {"s": SE.z3_str(mdl, s)}, sig=f"shared-charset:{tag}", vars=[s])
+
+
 @case("C18", "translator_selftest", domain="Raw")
 def translator_selftest(ctx):
     "validate the regex -> z3.Re translator: solver-generated members / non-members vs re.fullmatch"
@@ -115,6 +163,8 @@ def jobs(tier, seed):
             out.append(dict(case="regex", params=dict(pattern=pat, charset=cname, L=L), budget=dict(formula_ms=120000 if quick else 600000), timeout=900))
     for pat in PATTERNS[:8] if quick else PATTERNS:
         out.append(dict(case="translator_selftest", params=dict(pattern=pat, charset="core")))
+    for pats in [["[^a]", "[^b]c?"], ["a|b", ".x"], ["[ab]+", "[^c]*", "."]]:
+        out.append(dict(case="shared_charset", params=dict(patterns=pats, charset="small", L=L)))
     out.append(dict(case="regex", params=dict(pattern="[ab]*c", charset="small", L=4, canary=True)))
     return [dict(j, hashseed=0) for j in out]
 
